@@ -44,7 +44,7 @@ def r1_r2(ctx):
             if body is b:
                 # values returned through combinators: `_0 = lookup.map(..).ok_or_else(..)`
                 for d in body.defs.get(0, ()):
-                    if d[2] == "call":
+                    if d[2] == "call" and d[3].name != "from_residual":     # the Err side of `?` carries no Ok payload
                         payloads.append((O.call_ex(d[3], 0), d[3].loc(), body))
         name = (b.impl_self_ty or "") + " as " + re.sub(r".*Resolver", "Resolver", b.path.split(">::")[0])
         name = re.sub(r"^<.*? as ", "", b.path).replace(">::resolve", "")
